@@ -8,7 +8,7 @@ from . import instr_gen as ig
 
 RULE = ("charts with 1-3 tracks over 1-5 segment tempo maps (incl. note-less and absent tracks); per chart 10-25 calls of chart.notes_per_second(instrument, difficulty, start, end) with "
         "bounds given as ticks, as timestamps, or omitted: bounds coinciding exactly with note start times, with each other (zero length), reversed, explicit tick 0 / timestamp 0 ends, "
-        "starts after the last note onset (count 0), negative ticks, tick- and time-typed twins of the same interval; judged on the implementation's own chart: the float (bit pattern) equals "
+        "starts after the last note onset (count 0), negative ticks, intervals of one to ten whole days (exactly, and plus a second or a microsecond) by time and by tick, tick- and time-typed twins of the same interval; judged on the implementation's own chart: the float (bit pattern) equals "
         "count-in-closed-interval / length-in-seconds, ValueError exactly for non-positive length, absent or note-less track. Non-trivial: a call whose bound coincides with a note time, or with "
         "count 0, or an error case; distinct by (chart, calls)")
 ASSUMPTIONS = ["a tick bound mixed with a timestamp bound runs into the source's assert and is outside the property (interpretation I3); such calls are compared model-vs-implementation only"]
@@ -82,12 +82,12 @@ def gen(rng):
         return pyval.us(be.timestamp_at_tick_no_optimize_return(t))
     last_tick = nticks[-1]
     calls = []
-    G, X = "Single", "Expert"
+    G, X = "Single", "Expert"   # noqa: E741
     cand_ticks = sorted(set(nticks + [0, last_tick + 1, last_tick + 5 * R, max(0, nticks[0] - 1)] + [t + 1 for t in nticks]))
     def tick_b():
         return ("tick", rng.choice(cand_ticks))
     for _ in range(rng.randint(6, 14)):
-        form = rng.choice(["tt", "tt", "TT", "TT", "t-", "T-", "--", "twin", "zero", "rev", "-t", "after"])
+        form = rng.choice(["tt", "tt", "TT", "TT", "t-", "T-", "--", "twin", "zero", "rev", "-t", "after", "long"])
         if form == "tt":
             a, b = sorted([tick_b()[1], tick_b()[1]])
             calls.append((G, X, ("tick", a), ("tick", b)))
@@ -111,6 +111,12 @@ def gen(rng):
             calls.append((G, X, ("tick", t), ("tick", t)))
             calls.append((G, X, ("tick", t), ("tick", 0)))
             calls.append((G, X, ("time", us(t)), ("time", 0)))
+        elif form == "long":
+            # intervals of a day and more (whole days exactly, and a few seconds more), by time and by tick
+            a = us(tick_b()[1])
+            day = 86400 * 10 ** 6
+            calls.append((G, X, ("time", a), ("time", a + rng.choice([1, 1, 2, 10]) * day + rng.choice([0, 0, 5 * 10 ** 6, 1]))))
+            calls.append((G, X, tick_b(), ("tick", last_tick + rng.choice([40, 400]) * 10 ** 6)))
         elif form == "rev":
             a, b = sorted([tick_b()[1], tick_b()[1]])
             calls.append((G, X, ("tick", b), ("tick", a)))
